@@ -569,12 +569,51 @@ func sameTraces(a, b [][]string, ignoreExports bool) (bool, string) {
 	return true, ""
 }
 
+// onlyStrictModeErrorsLost: every valuation whose traces differ is one where the input (module code, strict)
+// ends by throwing a TypeError or ReferenceError and the output has the same trace up to that point and
+// then goes on without that error: the signature of strict-mode-only errors (assignment to a property of a
+// primitive / to a read-only property / to an undeclared name, delete of a non-configurable property).
+func onlyStrictModeErrorsLost(a, b [][]string, ignoreExports bool) bool {
+	if len(a) != len(b) {
+		return false
+	}
+	differ := 0
+	for v := range a {
+		x, y := dropReads(a[v]), dropReads(b[v])
+		if ignoreExports {
+			x, y = dropExports(x), dropExports(y)
+		}
+		x, y = squeezeAll(x), squeezeAll(y)
+		if strings.Join(x, "\n") == strings.Join(y, "\n") {
+			continue
+		}
+		differ++
+		if len(x) == 0 {
+			return false
+		}
+		last := x[len(x)-1]
+		if last != squeeze("throw TypeError") && last != squeeze("throw ReferenceError") {
+			return false
+		}
+		if len(y) < len(x)-1 || strings.Join(x[:len(x)-1], "\n") != strings.Join(y[:len(x)-1], "\n") {
+			return false
+		}
+		for _, e := range y[len(x)-1:] {
+			if strings.HasPrefix(e, "throw") {
+				return false
+			}
+		}
+	}
+	return differ > 0
+}
+
 type pendingProbe struct {
 	key     map[string]interface{}
 	detail  map[string]interface{}
 	what    string
 	in, out int
 	ignoreX bool
+	conv    bool // ES module input converted to a script format (cjs / iife)
 }
 
 func runTrees(r *core.Run, cases []treeCase, cfgs []config) {
@@ -720,7 +759,7 @@ func runTrees(r *core.Run, cases []treeCase, cfgs []config) {
 							what:    fmt.Sprintf("input %q -> output %q", s.src, o.code),
 							in:      pb.add(probeItem{Src: s.src, Kind: inKind, Names: names, Valuations: r.Pick(2, 4)}),
 							out:     pb.add(probeItem{Src: o.code, Kind: outKind, Names: names, Valuations: r.Pick(2, 4)}),
-							ignoreX: cf.Format == "iife" && c.Goal == "module"})
+							ignoreX: cf.Format == "iife" && c.Goal == "module", conv: converted})
 					} else {
 						key["check"] = "same-tree"
 						detail["observed_sexp"] = out.NF()
@@ -744,6 +783,10 @@ func runTrees(r *core.Run, cases []treeCase, cfgs []config) {
 				nProbeCmp++
 				if ok, why := sameTraces(pb.res[q.in].Traces, pb.res[q.out].Traces, q.ignoreX); !ok {
 					q.detail["input_traces"], q.detail["output_traces"] = pb.res[q.in].Traces, pb.res[q.out].Traces
+					if q.conv && onlyStrictModeErrorsLost(pb.res[q.in].Traces, pb.res[q.out].Traces, q.ignoreX) {
+						// structural cause: the module (always strict code) became a sloppy script
+						q.key["strictness_lost_in_format_conversion"] = true
+					}
 					r.Violation(q.key, "behaviour differs (host-visible calls / exceptions / exports): "+q.what+": "+why, q.detail)
 				}
 			}
